@@ -110,6 +110,12 @@ CLAIMED["C19"] = dict(
     technique="Lean 4 counting invariant over an abstract event queue + verified executable checker + differential execution",
     design="DESIGN.md section 4, C19")
 
+CLAIMED["C16"] = dict(
+    text="18 Lean 4 theorems in four layers. (1) Forwarding: the wrapper table RE-EXTRACTED on every run from src/myth_wrap_pthread.c, src/myth_real.c and src/myth-ld.opts (both redirection builds) equals the expected table for every function of the supported subset: MassiveThreads body, argument order, attribute conversion, static-initialiser handling first, result translation (EBUSY / errno conventions), real function otherwise; every wrapper has its --wrap entry; real_f never re-enters the wrapped name; object sizes / initialiser constants compatible (decide). (2) Static initialisers: LTS with an unbounded number of threads first-using one never-initialised mutex at shared-access granularity: exactly one conversion, nobody reaches the mutex body before magic_no is published, the published object equals a fresh mutex, waiters are never disabled and are released. (3) Attribute translation: for every garbage memory and pthread attribute, creation reads no unset field; detach state and stack size are honoured. (4) Programs: for the fork-join + lock-protected-commutative fragment every complete execution of the abstract interface yields eval p (determinacy, termination, no deadlock). Tie: translator + controlled-schedule traces of the handler replayed on the model + differential execution of generated determinate programs (12 families) against the system pthreads, libmyth-ld, libmyth-dl, wrapping switched off, and the model evaluator.",
+    note="Layer 4 beyond the fork-join fragment (gates, buffers, barrier phases, once, keys, detached threads, sleeps) is differential only: the system C library is the oracle, determinacy is by construction of the generator, not machine-checked. That the myth bodies refine the abstract interface is C01, C04-C08, C10, C11, C14 (not re-proved here). Four POSIX differences are open known findings (known_findings.json), each bound to one program family and one disagreement shape. pthread_cond_timedwait, rwlocks, cancellation, scheduling attributes are outside the supported subset. Trusted: Lean kernel; translate/wraptable_extract.py; harness/progs/pth_*.c; schedule controller.",
+    technique="Lean 4 proof (decide over a translated table, LTS invariant, structural induction on programs) + translator + trace acceptance + differential execution against the system library",
+    design="DESIGN.md section 4, C16")
+
 NA_REASON = "not yet claimed in this revision: model/theorems/correspondence for this property are still being built (see DESIGN.md section 8 build order); no other technique is substituted"
 
 
